@@ -21,6 +21,8 @@ ATTACH = {
     'autosar-data-specification/src/lib.rs': 'speclib_h.rs',
     'autosar-data-specification/src/autosarversion.rs': 'version_h.rs',
     'autosar-data-specification/src/attributename.rs': 'attrname_h.rs',
+    'autosar-data-specification/src/elementname.rs': 'elementname_h.rs',
+    'autosar-data-specification/src/enumitem.rs': 'enumitem_h.rs',
 }
 
 PKG_OF = {'autosar-data': 'autosar-data', 'autosar-data-specification': 'autosar-data-specification'}
@@ -43,6 +45,16 @@ def attach(scratch, files=None, harness_dir=None):
             f.write('\n#[cfg(any(kani, %s))]\n#[path = "%s"]\npub mod verif_h;\n' % (GUARD, hp))
         done.append(rel)
     return done
+
+
+def gen_dir(scratch):
+    """Files generated mechanically from the working tree and include!d by harness files."""
+    d = scratch.path('vxgen')
+    if not os.path.isdir(d):
+        os.makedirs(d)
+        from . import gen
+        gen.generate(scratch, d)
+    return d
 
 
 class KaniResult:
@@ -79,8 +91,8 @@ def _parse_block(res, block):
             res.status = 'timeout'
         if re.search(r'unsupported|not currently supported by Kani', ' '.join(d for d, _ in res.failed_checks), re.I):
             res.status = 'error'
-        if not res.failed_checks and 'unwinding assertion' in block:
-            res.failed_checks.append(('unwinding assertion', ''))
+        if res.failed_checks and all('unwinding assertion' in d for d, _ in res.failed_checks):
+            res.status = 'error'   # harness bound too small: a tool problem, never an alarm
     elif 'TIMEOUT' in block or 'timed out' in block:
         res.status = 'timeout'
     else:
@@ -128,7 +140,7 @@ def run_harnesses(scratch, package, harnesses, jobs=14, timeout_s=300, extra=())
     for h in harnesses:
         cmd += ['--exact', '--harness', h] if False else ['--harness', h]
     total_to = 180 + timeout_s * (1 + len(harnesses) // max(1, jobs)) + 600
-    rc, out, err, secs = run(cmd, cwd=cwd, timeout=total_to)
+    rc, out, err, secs = run(cmd, cwd=cwd, timeout=total_to, env={'VX_GEN_DIR': gen_dir(scratch)})
     text = out + '\n' + err
     if rc == -9:
         raise Undecided('kani:%s' % package, 'cargo kani exceeded %ds' % total_to)
@@ -155,7 +167,7 @@ def playback(scratch, package, harness, timeout_s=600):
     cwd = scratch.path(package)
     cmd = ['cargo', 'kani', '-Z', 'stubbing', '-Z', 'unstable-options', '-Z', 'function-contracts', '-Z', 'concrete-playback',
            '--concrete-playback=print', '--output-format', 'terse', '--harness-timeout', '%ds' % timeout_s, '--harness', harness]
-    rc, out, err, secs = run(cmd, cwd=cwd, timeout=timeout_s + 300)
+    rc, out, err, secs = run(cmd, cwd=cwd, timeout=timeout_s + 300, env={'VX_GEN_DIR': gen_dir(scratch)})
     tests = []
     for m in re.finditer(r'Concrete playback unit test for `([^`]*)`:\n```\n(.*?)```', out, re.S):
         if m.group(1).split('::')[-1] != harness:
@@ -234,7 +246,7 @@ def build_native(scratch, extra_main=None, features=()):
     open(ws, 'w').write(t)
     # pub re-exports so the binary can reach the child modules
     for crate, mods in (('autosar-data', ['parser', 'lexer', 'chardata', 'element']),
-                        ('autosar-data-specification', ['regex', 'autosarversion', 'attributename'])):
+                        ('autosar-data-specification', ['regex', 'autosarversion', 'attributename', 'elementname', 'enumitem'])):
         p = scratch.path(crate, 'src', 'lib.rs')
         lib = open(p).read()
         lines = ['\n#[cfg(%s)]\n#[doc(hidden)]\npub mod verif_entry {' % GUARD, '    extern crate std; use std::vec::Vec;',
@@ -253,10 +265,19 @@ def build_native(scratch, extra_main=None, features=()):
             lines.append('            "%s" => Some(crate::%s::verif_h::check_bytes(name, input)),' % (mname, mname))
         if 'pub mod verif_h;' in lib:
             lines.append('            "lib" => Some(crate::verif_h::check_bytes(name, input)),')
+        lines += ['            _ => None,', '        }', '    }']
+        lines += ['    pub fn ground(module: &str, which: &str) -> Option<std::string::String> {', '        match module {']
+        for mname in have:
+            hfile = ATTACH.get('%s/src/%s.rs' % (crate, mname))
+            if hfile and re.search(r'pub fn ground\(|vk_ground_names!', open(os.path.join(VERIF, 'harness', hfile)).read()):
+                lines.append('            "%s" => crate::%s::verif_h::ground(which),' % (mname, mname))
+        hfile = ATTACH.get('%s/src/lib.rs' % crate)
+        if 'pub mod verif_h;' in lib and hfile and re.search(r'pub fn ground\(|vk_ground_names!', open(os.path.join(VERIF, 'harness', hfile)).read()):
+            lines.append('            "lib" => crate::verif_h::ground(which),')
         lines += ['            _ => None,', '        }', '    }', '}']
         with open(p, 'a') as f:
             f.write('\n'.join(lines) + '\n')
-    env = {'RUSTFLAGS': '--cfg %s' % GUARD, 'CARGO_TARGET_DIR': scratch.path('target-native')}
+    env = {'RUSTFLAGS': '--cfg %s -A unexpected_cfgs -A unused' % GUARD, 'CARGO_TARGET_DIR': scratch.path('target-native'), 'VX_GEN_DIR': gen_dir(scratch)}
     rc, out, err, secs = run(['cargo', 'build', '--release', '--offline', '-p', 'vxnative'], cwd=scratch.dir, env=env, timeout=1200)
     if rc != 0:
         raise Undecided('native', 'native replay build failed: ' + _first_errors(err))
